@@ -987,11 +987,16 @@ fn judge(plan: &Plan, r: &RunResult, stats: &mut Stats, log: &mut LogHash) -> Ve
         if locks > 0 {
             push_v(&mut vs, "C18", "C18.reader_locks", format!("snapshot performed {} lock operation(s)", locks));
         }
-        let retries = loads.saturating_sub(4) / 3;
+        // Judged on work done, not on one implementation's loads per round: a
+        // snapshot that saw the sequence word advance by `span` may go round
+        // again for each of those writes (and an implementation may spend a
+        // second round on the same write); one that saw it stand still must
+        // not do more than a single pass.
         let seq_vals: Vec<u64> = evs.iter().filter_map(|e| match e { Ev::Load { loc, val, .. } if *loc == SEQ_LOC => Some(*val), _ => None }).collect();
         let span = seq_vals.iter().max().copied().unwrap_or(0) - seq_vals.iter().min().copied().unwrap_or(0);
-        if retries as u64 > span {
-            push_v(&mut vs, "C18", "C18.spurious_retry", format!("snapshot went round {} extra time(s) although the sequence word it observed only advanced by {}", retries, span));
+        let allowed = SOLO_SNAPSHOT_MAX_LOADS as u64 * (1 + 2 * span.min(1 << 20));
+        if loads as u64 > allowed {
+            push_v(&mut vs, "C18", "C18.spurious_retry", format!("snapshot made {} atomic loads (a single pass takes at most {}) although the sequence word it observed only advanced by {}", loads, SOLO_SNAPSHOT_MAX_LOADS, span));
         }
         if r.threads[c.tid].3 {
             // Solo run: nobody else moves, so exactly 4 loads and no retry.
@@ -1000,7 +1005,7 @@ fn judge(plan: &Plan, r: &RunResult, stats: &mut Stats, log: &mut LogHash) -> Ve
             }
             stats.bump("probe.solo_snapshot_checked");
         }
-        if retries > 0 {
+        if loads > SOLO_SNAPSHOT_MAX_LOADS {
             stats.bump("probe.snapshot_retried");
         }
     }
